@@ -9,6 +9,9 @@
       changing + a non-changing single-byte patch on every byte of the block.
  (iii) observer histories: BFS to closure over {watch a, watch a again, watch b, unwatch a, unwatch b,
       unwatch_all, changing update, non-changing update} against a list-without-duplicates model.
+ (iv) a refresh through the real transfer code (GeckoAsyncStructure.get / GeckoStructure.retry_request against
+      the simulator's segment chain) is ONE update: 2-byte items on every segment boundary of the answer and 1-byte
+      items at and just outside both ends, old/new blocks differing in every byte.
 Oracle: per observer exactly one call iff reference-decode(old) != reference-decode(new) (temperature:
 raw word), arguments (item, decode(old), decode(new)), and inside EVERY callback of the update -
 also those of other items - struct.status_block already is the new block.
@@ -250,7 +253,10 @@ def _table_job(job):
 
 
 # ---- (iii) observer histories -------------------------------------------------------------------
-OPS = ["watch a", "watch b", "unwatch a", "unwatch b", "unwatch_all", "update changing", "update same"]
+OPS = ["watch a", "watch b", "unwatch a", "unwatch b", "unwatch_all", "update changing", "update same",
+       # watch/unwatch calls made from INSIDE a notification (observer a does it in its callback): a client that
+       # drops an entity when a value changes
+       "update changing; a: unwatch a", "update changing; a: unwatch b", "update changing; a: unwatch_all"]
 
 
 def _observer_bfs(which):
@@ -260,10 +266,25 @@ def _observer_bfs(which):
         acc = amod.GeckoByteStructAccessor(st, "X", 10, "ALL")
         st.accessors = {"X": acc}
         calls = {"a": 0, "b": 0}
+        order = []   # ('call', k) and ('removed', k) in the order they happen during one notification
+        armed = []
 
         class Client:  # observer 'a' is a bound method: every access yields a fresh, equal-but-not-identical object,
             def on_a(self, *x):  # which is how the automation classes register themselves
                 calls["a"] += 1
+                order.append(("call", "a"))
+                if armed:
+                    act = armed.pop()
+                    if act == "unwatch_all":
+                        acc.unwatch_all()
+                        order.extend(("removed", k) for k in list(model))
+                        del model[:]
+                    else:
+                        k = act[-1]
+                        if k in model:
+                            acc.unwatch(obs[k])
+                            model.remove(k)
+                            order.append(("removed", k))
 
         client = Client()
 
@@ -271,7 +292,7 @@ def _observer_bfs(which):
             def __getitem__(self, k):
                 return client.on_a if k == "a" else dict.__getitem__(self, k)
 
-        obs = _Obs(b=(lambda *x: calls.__setitem__("b", calls["b"] + 1)))
+        obs = _Obs(b=(lambda *x: (calls.__setitem__("b", calls["b"] + 1), order.append(("call", "b")))))
         model = []
         val = 0
         for op in hist:
@@ -288,6 +309,31 @@ def _observer_bfs(which):
                 k = op[-1]
                 acc.unwatch(obs[k])
                 model.remove(k)
+            elif op.startswith("update changing;"):
+                # order-agnostic oracle: an observer registered when the update starts and not removed during the
+                # notification is called exactly once; one removed during it is called at most once and never
+                # after its removal
+                start = list(model)
+                del order[:]
+                armed.append(op.split(": ")[1])
+                val = (val + 1) % 256
+                st.replace_status_block_segment(10, bytes([val]))
+                del armed[:]
+                for k in ("a", "b"):
+                    n = calls[k] - before[k]
+                    removed_at = order.index(("removed", k)) if ("removed", k) in order else None
+                    late = removed_at is not None and ("call", k) in order[removed_at:]
+                    if k not in start:
+                        ok = n == 0
+                    elif removed_at is None:
+                        ok = n == 1
+                    else:
+                        ok = n <= 1 and not late
+                    if not ok:
+                        return None, (f"after {hist}: observer {k} called {n} time(s) in a notification where it was "
+                                      f"{'registered' if k in start else 'not registered'} at the start"
+                                      f"{', removed during it' if removed_at is not None else ' and never removed'}"
+                                      f"{' and called after its removal' if late else ''} (order {order})")
             elif op == "update changing":
                 val = (val + 1) % 256
                 st.replace_status_block_segment(10, bytes([val]))
@@ -320,6 +366,86 @@ def _observer_bfs(which):
                 seen[ns] = h + (op,)
                 q.append(h + (op,))
     return len(seen), trans, None
+
+
+# ---- (iv) a refresh through the real transfer code is ONE update -------------------------------------
+def _refresh_job(job):
+    """Fault-free refreshes (start,length) through the real GeckoAsyncStructure.get / GeckoStructure.retry_request
+    against the simulator, with watched 2-byte items on every segment boundary of the answer and 1-byte items at
+    both ends; old and new block differ in every byte."""
+    from . import c01
+    kind, pairs = job
+    rig = c01.ARig() if kind == "async" else c01.TClient(c01.Chooser())
+    st = rig.spa.struct if kind == "async" else rig.st
+    new = c01.SPA_BLOCK
+    old = c01.CLIENT_BLOCK
+    rig.use_blocks(new, old)
+    bad = []
+    n = 0
+    for start, length in pairs:
+        accs = {}
+        for b in range(start + c01.SEG - 1, start + length - 1, c01.SEG):
+            accs[f"W{b}"] = amod.GeckoWordStructAccessor(st, f"W{b}", b, "ALL")
+        accs["first"] = amod.GeckoByteStructAccessor(st, "first", start, "ALL")
+        accs["last"] = amod.GeckoByteStructAccessor(st, "last", start + length - 1, "ALL")
+        if start > 0:
+            accs["before"] = amod.GeckoByteStructAccessor(st, "before", start - 1, "ALL")
+        if start + length < 1024:
+            accs["after"] = amod.GeckoByteStructAccessor(st, "after", start + length, "ALL")
+        st.accessors = accs
+        calls = []
+
+        def cb(sender, o, v, calls=calls, st=st):
+            calls.append((sender.tag, o, v, bytes(st.status_block)))
+
+        for a in accs.values():
+            a.watch(cb)
+        if kind == "async":
+            obs = rig.transfer(start, length, R=1, settle=0.3)
+        else:
+            obs = rig.transfer(start, length, N=0, fates=None)
+        n += 1
+        if obs["result"] is not True:
+            bad.append((start, length, ("transfer", f"fault-free refresh did not succeed: {obs['result']}")))
+            continue
+        # the spa may answer with more bytes than asked for (whole segments): the refreshed block is whatever C01
+        # accepts - the requested range is the spa's, every other byte is the old or the spa's byte
+        expect = bytes(obs["block"])
+        if expect[start:start + length] != new[start:start + length] or any(
+                expect[i] not in (old[i], new[i]) for i in range(1024)):
+            bad.append((start, length, ("transfer", f"refresh ({start},{length}) did not install the spa's bytes (see C01)")))
+            continue
+        for tag, a in accs.items():
+            mine = [c for c in calls if c[0] == tag]
+            width = 2 if tag.startswith("W") else 1
+            ov = int.from_bytes(old[a.pos:a.pos + width], "big")
+            nv = int.from_bytes(expect[a.pos:a.pos + width], "big")
+            want = 0 if ov == nv else 1
+            if len(mine) != want:
+                bad.append((start, length, ("count", f"{kind} refresh ({start},{length}): item at {a.pos} width {width} notified "
+                                                     f"{len(mine)} time(s) {[(c[1], c[2]) for c in mine]}, expected {want} ({ov}->{nv})")))
+                break
+            if mine and (mine[0][1], mine[0][2]) != (ov, nv):
+                bad.append((start, length, ("args", f"{kind} refresh ({start},{length}): item at {a.pos} notified "
+                                                    f"({mine[0][1]},{mine[0][2]}), expected ({ov},{nv})")))
+                break
+            if mine and mine[0][3] != expect:
+                bad.append((start, length, ("stale", f"{kind} refresh ({start},{length}): observer of the item at {a.pos} read a block "
+                                                     f"that is not yet the refreshed block")))
+                break
+    if kind == "async":
+        rig.close()
+    return n, bad
+
+
+def _refresh_pairs(quick):
+    pairs = [(0, 1024), (0, 39), (0, 40), (100, 78), (1024 - 117, 117)]
+    for start in range(234, 313, 3 if quick else 1):
+        pairs.append((start, 117))
+    if not quick:
+        for start in range(0, 1024 - 200, 7):
+            pairs.append((start, 200))
+    return pairs
 
 
 def run(ctx):
@@ -362,6 +488,18 @@ def run(ctx):
         ctx.set(f"observer_states_{which}", ns)
         if err:
             ctx.violation(f"C03|observers|{which}", err, {"mode": "observers", "which": which})
+    rp = _refresh_pairs(ctx.quick)
+    k = max(1, len(rp) // max(1, ctx.workers // 2))
+    jobs = [(kind, rp[i:i + k]) for kind in ("async", "threaded") for i in range(0, len(rp), k)]
+    rn = 0
+    for (n, bad), job in zip(core.pmap(ctx, _refresh_job, jobs, chunksize=1), jobs):
+        rn += n
+        for start, length, why in bad:
+            ctx.violation(f"C03|refresh|{job[0]}|{why[0]}", why[1], {"mode": "refresh", "kind": job[0], "start": start, "length": length})
+    states.update(("refresh", p) for p in rp)
+    trans += rn
+    ctx.set("refreshes_through_transfer_code", rn)
+    ctx.log(f"(iv) {rn} refreshes through the real transfer code (both clients)")
     ctx.set("states", len(states))
     ctx.set("transitions", trans)
     ctx.set("traces_validated_against_impl", trans)
@@ -380,6 +518,10 @@ def replay(ctx, data):
         n, bad = _table_job((data["module"], data["kind"], data.get("seed", 0)))
         for why, tag in bad:
             ctx.violation(f"C03|table|{why[0]}|{data['module']}:{tag}", why[1], data)
+    elif data["mode"] == "refresh":
+        n, bad = _refresh_job((data["kind"], [(data["start"], data["length"])]))
+        for start, length, why in bad:
+            ctx.violation(f"C03|refresh|{data['kind']}|{why[0]}", why[1], data)
     else:
         ns, nt, err = _observer_bfs(data["which"])
         if err:
